@@ -18,6 +18,9 @@ Stream `e2n-sequence` (inside the quantifier, reported through `fail`): several 
          history `e2nHistory` (c14.hist).  Every argument of every call (all streams) is snapshotted before and compared bit-exactly
          after the call: the model conversion is a function and returns its arguments unchanged (C14_call_returns_arguments,
          C14_history_fresh); C14_inplace_counterexample shows what goes wrong otherwise (weights ~ size^2 on the second call).
+Stream `dtype-layout` (round 4, seeded C14-7; inside the quantifier "every field", reported through `fail`): every field dtype
+         (int8 .. uint64, bool, float32, float64) x memory layout (C / Fortran / strided / reversed / read-only / transposed view) for
+         both conversions, expectation = the exact rational mean of the VALUES.
 """
 from fractions import Fraction as F
 
@@ -60,6 +63,12 @@ RULE = ('seeded meshes (tri, quad, tri+quad, tet, tet2, hex, prism, pyr, hex+pri
         'shares, column sums); every call is also compared with the same call on freshly built arguments and a freshly built object and '
         'with the model history (c14.hist); every argument object of every call of every stream is snapshotted before and compared '
         'bit-exactly after the call; '
+        'stream `dtype-layout` (round 4): every field dtype {int8 .. int64, uint8 .. uint64, bool, float32, float64} x mesh kind (all 88 '
+        'pairs per quick run) x memory layout {C, Fortran, every-second-row/column slice, negative strides, read-only, transposed view} x '
+        'shapes (n, 1) / (n, k) (elemental -> nodal also (n,)): nodal -> elemental (array argument, 30 % registered as a nodal variable and '
+        'converted by name) and two of the four elemental -> nodal conversions; integer values mostly near the ends of the dtype\'s range '
+        '(the sum over one element does not fit the dtype), Boolean masks mostly set; expectation = the exact rational mean / weighted '
+        'mean / share of the VALUES; '
         'distinct = distinct (mesh, conversion, weights, field) content')
 ASSUMPTIONS = [
     'elements have positive metric and every node used by the laws touches an element (the row of an unreferenced node is an '
@@ -83,6 +92,11 @@ ASSUMPTIONS = [
     'the clause in one of the two calls and is reported (`...:depends-on-earlier-calls`).  A modified argument alone is reported as a '
     'broken correspondence (the model returns its arguments unchanged); the clause it breaks is reported on the next call of the '
     'sequence (the sequence is extended by three calls when the modification happens in its last call)',
+    '"every field": the container dtype is not part of the statement - the values of an int8 / uint16 / bool / float32 array are '
+    'numbers and the result must be the mean (weighted mean, share) of those numbers within 1e-9 * max|x| (float32 input: 2e-6 * max|x|, '
+    'femio returns float32 then); calibrated on the unchanged tree: integer / Boolean input -> float64 mean, every layout the same '
+    'values; the dtype of the RESULT is not judged.  1-D nodal input (n,) is rejected by convert_nodal2elemental for every dtype '
+    '(IndexError: it indexes [rows, :]) and is not generated; float16 is not generated',
     'incidence= is given as a scipy.sparse MATRIX (csr / csc / coo; bool / int64 / float64) holding the Boolean incidence (stored value 1); '
     'float32 matrices, sparse arrays (csr_array) and dense arrays are not used',
 ]
@@ -130,13 +144,74 @@ def gen_field(rng, n, width, style, pos=None):
     return [[F(rng.randint(-2 ** 20, 2 ** 20), 2 ** rng.randint(0, 12)) for _ in range(width)] for _ in range(n)]
 
 
-def as_array(rows, one_d=False, int_dtype=False):
+# round 4 (class F, seeded C14-7): DTYPE AND MEMORY LAYOUT of every field handed to the two conversions.  The property speaks of
+# "every field": the values of an integer / Boolean / single-precision array are numbers like any other, and "the mean of its own
+# nodes' values" is the mean of those NUMBERS (exact rationals here), whatever the container - not a sum that wraps around in the
+# container's dtype, not a logical OR of flags.  Calibrated on the unchanged tree: integer and Boolean input gives the float64
+# mean, float32 input a float32 result (tolerance 2e-6 of the field scale), every layout the same values.
+DTYPES = ['int8', 'int16', 'int32', 'int64', 'uint8', 'uint16', 'uint32', 'uint64', 'bool', 'float32', 'float64']
+LAYOUTS = ['C', 'F', 'strided', 'reversed', 'readonly', 'transposed']
+RTOL32 = 2e-6
+
+
+def layout_of(base, layout):
+    """the same values in another memory layout"""
+    if layout == 'C':
+        return np.ascontiguousarray(base)
+    if layout == 'F':
+        return np.asfortranarray(base)
+    if layout == 'strided':         # every second row / column of a larger array: not contiguous in any order
+        big = np.zeros(tuple(2 * k for k in base.shape), dtype=base.dtype)
+        x = big[tuple(slice(None, None, 2) for _ in base.shape)]
+        x[...] = base
+        return x
+    if layout == 'reversed':        # negative strides
+        return base[::-1].copy()[::-1]
+    if layout == 'readonly':
+        x = base.copy()
+        x.setflags(write=False)
+        return x
+    if layout == 'transposed':      # a transposed view of a C-ordered (width, n) array
+        return np.ascontiguousarray(base.T).T
+    raise ValueError(layout)
+
+
+def as_array(rows, one_d=False, int_dtype=False, form=None):
+    if form is not None:
+        dt, layout = form
+        d = np.dtype(dt)
+        if d.kind in 'iub':
+            assert all(F(v).denominator == 1 for r in rows for v in r)
+            a = np.array([[int(v) for v in r] for r in rows], dtype=d)
+            assert all(int(x) == int(v) for ra, r in zip(a, rows) for x, v in zip(ra, r)), 'value not representable in ' + dt
+        else:
+            a = np.array([[float(v) for v in r] for r in rows], dtype=d)
+            assert all(F(float(x)) == F(v) for ra, r in zip(a, rows) for x, v in zip(ra, r)), 'value not representable in ' + dt
+        a = layout_of(a, layout)
+        return a[:, 0] if one_d else a
     if int_dtype:          # integer-valued field handed over as an int64 array (what np.arange / counting produces)
         assert all(F(v).denominator == 1 for r in rows for v in r)
         a = np.array([[int(v) for v in r] for r in rows], dtype=np.int64)
     else:
         a = np.array([[float(v) for v in r] for r in rows], dtype=float)
     return a[:, 0] if one_d else a
+
+
+def gen_field_dtype(rng, n, width, dt):
+    """rows of exact Fractions representable in dtype `dt`; integers mostly NEAR THE ENDS of the dtype's range (the sum of the
+    3 .. 10 values of one element does not fit the dtype), Boolean masks mostly set"""
+    d = np.dtype(dt)
+    if d.kind == 'b':
+        p = rng.choice([.3, .7, .9, 1.0])
+        return [[F(int(rng.random() < p)) for _ in range(width)] for _ in range(n)], 'mask'
+    if d.kind in 'iu':
+        lo, hi = int(np.iinfo(d).min), int(np.iinfo(d).max)
+        style = rng.choice(['high', 'high', 'full', 'small'] + (['low', 'low'] if lo < 0 else ['high', 'top']))
+        a, b = {'high': (hi // 2, hi), 'top': (hi - 3, hi), 'low': (lo, lo // 2), 'full': (lo, hi), 'small': (0, 7)}[style]
+        return [[F(rng.randint(a, b)) for _ in range(width)] for _ in range(n)], style
+    if dt == 'float32':
+        return [[F(rng.randint(-2 ** 20, 2 ** 20), 2 ** rng.randint(0, 3)) for _ in range(width)] for _ in range(n)], 'dyadic24'
+    return gen_field(rng, n, width, 'dyadic'), 'dyadic'
 
 
 def enc_cols(rows, width):
@@ -262,14 +337,20 @@ def drain_arg_events(ctx, case):
 
 # ------------------------------------------------------------------------------------------ nodal -> elemental
 
-def check_n2e(m, rows, affine=None, one_d=False, int_dtype=False):
-    """oracle on the real API; returns (failures, real result or None, error)"""
+def check_n2e(m, rows, affine=None, one_d=False, int_dtype=False, form=None, by_name=False, rtol=None):
+    """oracle on the real API; returns (failures, real result or None, error).  form = (dtype, layout) of the array handed
+    over (None: float64 / int64, C order); by_name: the array is registered as a nodal variable and converted by its name"""
+    tolr = TOL if rtol is None else rtol
     fd = K.to_fem(m)
     width = len(rows[0])
-    x = as_array(rows, one_d, int_dtype)
+    x = as_array(rows, one_d, int_dtype, form)
     w_ = Watch('convert_nodal2elemental', data=x)
+    arg = x
+    if by_name:
+        G.quiet(fd.nodal_data.update_data, np.array([i for i, _ in m['nodes']]), {'T': x})
+        arg = 'T'
     try:
-        r = G.quiet(fd.convert_nodal2elemental, x, calc_average=True)
+        r = G.quiet(fd.convert_nodal2elemental, arg, calc_average=True)
     except ValueError as e:
         return [], None, 'value_error:' + str(e)[:60]
     finally:
@@ -284,7 +365,7 @@ def check_n2e(m, rows, affine=None, one_d=False, int_dtype=False):
     for k, e in enumerate(ids):
         c = conn[e]
         want = [sum(val[n][w] for n in c) / len(c) for w in range(width)]
-        if not all(abs(float(a) - b) <= TOL * sc for a, b in zip(want, r[k])):
+        if not all(abs(float(a) - b) <= tolr * sc for a, b in zip(want, r[k])):
             fails.append(('n2e:mean-of-own-nodes', f'element {e}: value is not the mean of its own nodes\' values',
                           {'element': e, 'expected': [float(a) for a in want], 'got': r[k].tolist()}))
             break
@@ -292,15 +373,16 @@ def check_n2e(m, rows, affine=None, one_d=False, int_dtype=False):
             a, b = affine
             g = [sum(pos[n][j] for n in c) / len(c) for j in range(3)]
             atc = [sum(a[w][j] * g[j] for j in range(3)) + b[w] for w in range(width)]
-            if not all(abs(float(u) - v) <= TOL * sc for u, v in zip(atc, r[k])):
+            if not all(abs(float(u) - v) <= tolr * sc for u, v in zip(atc, r[k])):
                 fails.append(('n2e:affine-at-centroid', f'element {e}: affine field not reproduced at the vertex centroid',
                               {'element': e, 'expected': [float(u) for u in atc], 'got': r[k].tolist()}))
                 break
     return fails, dict(zip(ids, r.tolist())), None
 
 
-def tie_n2e(ctx, m, rows, real, case):
+def tie_n2e(ctx, m, rows, real, case, rtol=None):
     width = len(rows[0])
+    tolr = TOL if rtol is None else rtol
     rep = ctx.driver.ask(f'c14.n2e {G.enc_mesh(m)} {enc_cols(rows, width)}')
     t = C.Toks(rep)
     if t.tok() != 'ok':
@@ -312,7 +394,7 @@ def tie_n2e(ctx, m, rows, real, case):
         vals = t.lst(lambda: t.rat() if t.nat() == 1 else None)
         order.append(e)
         got = real.get(e)
-        if got is None or any(v is None for v in vals) or not all(abs(float(a) - b) <= TOL * sc for a, b in zip(vals, got)):
+        if got is None or any(v is None for v in vals) or not all(abs(float(a) - b) <= tolr * sc for a, b in zip(vals, got)):
             ctx.disagree('convert_nodal2elemental', case, got, [None if v is None else float(v) for v in vals])
             return
     if order != list(real):
@@ -386,9 +468,9 @@ def check_n2e_history(m, rows1, rows2, how, affine2=None, name='T'):
 
 # ------------------------------------------------------------------------------------------ elemental -> nodal
 
-def run_e2n(m, rows, mode, wkind, weights, one_d=False, incidence=None):
+def run_e2n(m, rows, mode, wkind, weights, one_d=False, incidence=None, form=None):
     fd = K.to_fem(m)
-    x = as_array(rows, one_d)
+    x = as_array(rows, one_d, form=form)
     kw = {}
     if incidence == 'explicit-full':      # the documented `incidence=` parameter, given the mesh's own incidence matrix
         type(fd).calculate_incidence_matrix.cache_clear()
@@ -406,16 +488,16 @@ def run_e2n(m, rows, mode, wkind, weights, one_d=False, incidence=None):
     return np.asarray(r, float).reshape(len(m['nodes']), -1)
 
 
-def check_e2n(m, rows, mode, wkind, weights, one_d=False, incidence=None, cols=None):
+def check_e2n(m, rows, mode, wkind, weights, one_d=False, incidence=None, cols=None, form=None, rtol=None):
     """oracle on the real API: the laws of the property"""
     try:
-        r = run_e2n(m, rows, mode, wkind, weights, one_d, incidence)
+        r = run_e2n(m, rows, mode, wkind, weights, one_d, incidence, form)
     except NotImplementedError as e:
         return [], None, 'not_implemented:' + str(e)[:40]
-    return e2n_laws(m, rows, mode, wkind, weights, r, cols=cols), r, None
+    return e2n_laws(m, rows, mode, wkind, weights, r, cols=cols, rtol=rtol), r, None
 
 
-def e2n_laws(m, rows, mode, wkind, weights, r, sizes=None, cols=None, metric_weights=False):
+def e2n_laws(m, rows, mode, wkind, weights, r, sizes=None, cols=None, metric_weights=False, rtol=None):
     """the clauses of the property for ONE result array `r` (n_nodes x width) of the elemental field `rows`.
     sizes: element id -> size for the implicit weights (default: true_metrics(m), which calls femio);
     cols: if the field consists of indicator columns (column c = indicator of the element at flattened position cols[c]) the
@@ -432,7 +514,7 @@ def e2n_laws(m, rows, mode, wkind, weights, r, sizes=None, cols=None, metric_wei
     node_ids = [i for i, _ in m['nodes']]
     sc = max([1.0] + [abs(float(v)) for row in rows for v in row])
     implicit32 = (wkind == 'implicit' or (metric_weights and wkind == 'explicit')) and any(t in ('hex', 'prism', 'pyr') for t in m['blocks'])
-    tol = (2e-5 if implicit32 else TOL) * sc
+    tol = (2e-5 if implicit32 else TOL if rtol is None else rtol) * sc
     fails = []
     xs = [[float(v) for v in row] for row in rows]
     if r.shape != (nn, width):
@@ -822,6 +904,83 @@ def run(ctx):
     #      every sparse format / dtype, weight= array, data arrays), graded meshes (clearly unequal element sizes)
     for k in range(ctx.n(77, 704) if ctx.driver is not None else ctx.n(154, 1408)):
         sequence_case(ctx, rng, k)
+    # ---- stream `dtype-layout`: every field dtype x memory layout for both conversions (inside the quantifier: "every field")
+    for k in range(ctx.n(88, 704) if ctx.driver is not None else ctx.n(176, 1408)):
+        dtype_layout_case(ctx, rng, k)
+
+
+# ------------------------------------------------------------------------------------------ stream dtype-layout
+
+DL_KINDS = ['hex', 'tet', 'shell:quad', 'shell:tri', 'tet2', 'prism', 'mixed-nopyr', 'shell:mixed']
+
+
+def dtype_layout_case(ctx, rng, k):
+    """one mesh x one dtype (kinds and dtypes cycle with coprime periods: every pair within 88 cases) x a random layout:
+    nodal -> elemental (array argument, or the array registered as a nodal variable and converted by name) and two of the four
+    elemental -> nodal conversions, fields (n, 1) / (n, k) (elemental -> nodal also (n,)), same oracle as the main loop with the
+    expectation computed from the exact values"""
+    kind, dt = DL_KINDS[k % len(DL_KINDS)], DTYPES[k % len(DTYPES)]
+    layout = LAYOUTS[(k // len(DTYPES) + k) % len(LAYOUTS)] if rng.random() < .5 else rng.choice(LAYOUTS)
+    form = [dt, layout]
+    rtol = RTOL32 if dt == 'float32' else None
+    m = gen_mesh(rng, kind)
+    mj = G.to_json(m)
+    fl = flat_elems(m)
+    nn, ne = len(m['nodes']), len(fl)
+    shared = ne >= 2
+    ctx.count('dtype-layout:dtype:' + dt)
+    ctx.count('dtype-layout:layout:' + layout)
+    # ---- nodal -> elemental
+    width = rng.choice([1, 1, 2, 3, 4])
+    fld, style = gen_field_dtype(rng, nn, width, dt)
+    by_name = rng.random() < .3
+    case = {'check': 'n2e', 'stream': 'dtype-layout', 'mesh': mj, 'field': field_json(fld), 'one_d': False, 'form': form,
+            'by_name': by_name, 'affine': None}
+    small = {k_: v for k_, v in case.items() if k_ not in ('mesh', 'field')} | {'mesh': G.describe(m), 'values': style}
+    try:
+        fails, real, err = check_n2e(m, fld, None, False, form=form, by_name=by_name, rtol=rtol)
+    except Exception as e:  # noqa  (ValueError of the ragged mixed gather is `err`; anything else on an in-quantifier field is a failure)
+        fails, real, err = [('n2e:raises:' + type(e).__name__, f'convert_nodal2elemental raised {type(e).__name__}: {e} on a {dt} field '
+                             f'of shape ({nn}, {width}) [{layout}]', {'exception': repr(e)})], None, 'raises'
+    ctx.case(('dtype-layout', 'n2e', k, dt, layout, width), sample={'check': 'n2e', 'stream': 'dtype-layout', 'mesh': G.describe(m),
+             'dtype': dt, 'layout': layout, 'width': width, 'values': style, 'by_name': by_name}
+             if ctx.dist.get('dtype-layout:n2e:ok', 0) == 0 and not err else None, nontrivial=shared)
+    ctx.count('dtype-layout:n2e:' + (err.split(':')[0] if err else 'ok'))
+    if not err:
+        ctx.count(f'dtype-layout:n2e:{dt}:values-{style}')
+    for sig, what, obs in fails:
+        ctx.fail(sig + ':' + ('float' if dt.startswith('float') else 'integer-or-bool') + '-field', what + f' [field dtype {dt}, layout {layout}, values {style}]',
+                 case, dict(obs, dtype=dt, layout=layout))
+    drain_arg_events(ctx, small)
+    if real is not None and ctx.driver is not None:
+        tie_n2e(ctx, m, fld, real, small, rtol=rtol)
+    # ---- elemental -> nodal
+    for mode, wkind in rng.sample(SEQ_OPS, 2):
+        wk = wkind if mode == 'mean' else 'none'
+        if wk == 'implicit' and 'pyr' in m['blocks']:
+            wk = 'explicit'
+        width = rng.choice([1, 1, 2, 3])
+        one_d = width == 1 and rng.random() < .5
+        fld, style = gen_field_dtype(rng, ne, width, dt)
+        weights = [F(rng.randint(1, 64), 8) for _ in range(ne)] if wk == 'explicit' else None
+        case = {'check': 'e2n', 'stream': 'dtype-layout', 'mesh': mj, 'field': field_json(fld), 'mode': mode, 'weights_kind': wk,
+                'one_d': one_d, 'weights': None if weights is None else [str(w) for w in weights], 'form': form}
+        small = {k_: v for k_, v in case.items() if k_ not in ('mesh', 'field')} | {'mesh': G.describe(m), 'values': style}
+        try:
+            fails, real, err = check_e2n(m, fld, mode, wk, weights, one_d, form=form, rtol=rtol)
+        except Exception as e:  # noqa
+            fails, real, err = [(f'e2n-{mode}:raises:' + type(e).__name__, f'convert_elemental2nodal(mode={mode}, weights {wk}) raised '
+                                 f'{type(e).__name__}: {e} on a {dt} field [{layout}]', {'exception': repr(e)})], None, 'raises'
+        ctx.case(('dtype-layout', 'e2n', k, mode, wk, dt, layout, width, one_d), nontrivial=shared)
+        ctx.count(f'dtype-layout:e2n:{mode}:{wk}:' + (err.split(':')[0] if err else 'ok'))
+        if not err:
+            ctx.count(f'dtype-layout:e2n:{dt}' + (':1d' if one_d else ''))
+        for sig, what, obs in fails:
+            ctx.fail(sig + ':' + ('float' if dt.startswith('float') else 'integer-or-bool') + '-field', what + f' [field dtype {dt}, layout {layout}, values {style}]',
+                     case, dict(obs, dtype=dt, layout=layout))
+        drain_arg_events(ctx, small)
+        if real is not None and ctx.driver is not None and rtol is None and not (wk == 'implicit' and (K.is_shell(m) or len(m['blocks']) > 1)):
+            tie_e2n(ctx, m, fld, mode, 'false' if mode == 'effective' else wk, weights, real, small)
 
 
 # ------------------------------------------------------------------------------------------ stream e2n-sequence
@@ -1264,13 +1423,16 @@ def replay(ctx, obj):
         aff = case.get('affine')
         if aff:
             aff = ([[F(v) for v in r] for r in aff[0]], [F(v) for v in aff[1]])
-        fails, real, err = check_n2e(m, fld, aff, case.get('one_d', False), case.get('int_dtype', False))
+        form = case.get('form')
+        fails, real, err = check_n2e(m, fld, aff, case.get('one_d', False), case.get('int_dtype', False), form=form,
+                                     by_name=case.get('by_name', False), rtol=RTOL32 if form and form[0] == 'float32' else None)
     elif case['check'] == 'order1':
         fails, err = check_order1(m, fld, explicit=case.get('explicit', False)), None
     else:
         wk = case['weights_kind']
         w = None if case.get('weights') is None else [F(x) for x in case['weights']]
+        form = case.get('form')
         fails, real, err = check_e2n(m, fld, case['mode'], wk, w, case.get('one_d', False), case.get('incidence'),
-                                     case.get('indicator_cols'))
+                                     case.get('indicator_cols'), form=form, rtol=RTOL32 if form and form[0] == 'float32' else None)
     return {'case': {k: v for k, v in case.items() if k not in ('mesh', 'field')}, 'error': err,
             'failures': [{'signature': s, 'what': w_, 'observed': o} for s, w_, o in fails], 'fails': bool(fails)}
